@@ -25,6 +25,7 @@ def tables : List (String → List String → Option String) := []
   ++ [Drv.T2Db.table]
   ++ [Drv.pureTable]
   ++ [Drv.Lib2.table]
+  ++ [Drv.beatgridGenTable]
 
 /-- Stateful groups, selected by a first line `#mode <name>`. -/
 def modes : List Mode := []
